@@ -1,0 +1,284 @@
+//go:build verif
+
+package rueidis
+
+// Exported wrappers around the client-side cache stores (lru.go, cache.go adapter) and the expiry accessors of
+// RedisMessage, for the external model-based verification harness (properties C07 and C10).
+// Nothing in this file is compiled without the "verif" build tag.
+
+import (
+	"strings"
+	"sync/atomic"
+	"time"
+
+	"github.com/redis/rueidis/internal/cmds"
+)
+
+// Size constants of lru.go: an entry is accounted as
+// VerifEntryBaseSize + VerifKeyCmdFactor*(len(key)+len(cmd)) + VerifMessageStructSize + len(payload) for a string reply.
+const (
+	VerifEntryBaseSize     = entryBaseSize
+	VerifEntryMinSize      = entryMinSize
+	VerifMessageStructSize = messageStructSize
+	VerifKeyCmdFactor      = 2
+	VerifMoveThreshold     = int(moveThreshold) + 1 // the fast path of Flight moves an entry every this many hits of its key
+)
+
+// VerifStore wraps any CacheStore; the snapshot functions work for the two implementations of the package.
+type VerifStore struct {
+	s CacheStore
+	l *lru
+	a *adapter
+}
+
+func VerifNewLRU(max int) *VerifStore {
+	return VerifWrapStore(newLRU(CacheStoreOption{CacheSizeEachConn: max}))
+}
+
+func VerifWrapStore(s CacheStore) *VerifStore {
+	v := &VerifStore{s: s}
+	v.l, _ = s.(*lru)
+	v.a, _ = s.(*adapter)
+	return v
+}
+
+func (v *VerifStore) Store() CacheStore { return v.s }
+func (v *VerifStore) IsLRU() bool       { return v.l != nil }
+func (v *VerifStore) IsAdapter() bool   { return v.a != nil }
+
+// Is reports whether obj (the object a vhook call passes) is this store.
+func (v *VerifStore) Is(obj any) bool {
+	switch o := obj.(type) {
+	case *lru:
+		return o == v.l
+	case *adapter:
+		return o == v.a
+	}
+	return false
+}
+
+// VerifCacheValue builds the reply the read loop hands to CacheStore.Update: a blob string of payloadLen bytes
+// (all equal to tag), marked as a cached message, carrying the server-side expiry pxat (0 = none).
+func VerifCacheValue(payloadLen int, tag byte, pxat int64) RedisMessage {
+	m := strmsg(typeBlobString, strings.Repeat(string([]byte{tag}), payloadLen))
+	m.attrs = cacheMark
+	m.setExpireAt(pxat)
+	return m
+}
+
+// VerifMsg is what the harness may look at in a RedisMessage returned by a store.
+type VerifMsg struct {
+	Typ        byte
+	PayloadLen int
+	Tag        byte
+	ExpireAt   int64 // raw expiry field (unix milliseconds, 0 = unset)
+	CacheHit   bool
+	ApproxSize int
+}
+
+func VerifMsgInfo(m RedisMessage) VerifMsg {
+	r := VerifMsg{Typ: m.typ, ExpireAt: m.getExpireAt(), CacheHit: m.IsCacheHit()}
+	if m.typ != 0 {
+		r.ApproxSize = m.approximateSize()
+	}
+	if m.typ == typeBlobString || m.typ == typeSimpleString {
+		s := m.string()
+		r.PayloadLen = len(s)
+		if len(s) > 0 {
+			r.Tag = s[0]
+		}
+	}
+	return r
+}
+
+// VerifSetExpireAt / VerifRelativePTTL expose the expiry field arithmetic of message.go.
+func VerifSetExpireAt(m *RedisMessage, pxat int64)         { m.setExpireAt(pxat) }
+func VerifRelativePTTL(m RedisMessage, now time.Time) int64 { return m.relativePTTL(now) }
+
+// VerifCacheable builds the cacheable command whose cache identity is (key, name).
+func VerifCacheable(name, key string) Cacheable {
+	return Cacheable(cmds.NewCompleted([]string{name, key}))
+}
+
+func VerifCacheKey(c Cacheable) (key, cmd string) { return cmds.CacheKey(c) }
+
+// VerifKeys builds the argument of CacheStore.Delete.
+func VerifKeys(keys []string) []RedisMessage {
+	if keys == nil {
+		return nil
+	}
+	ms := make([]RedisMessage, len(keys))
+	for i, k := range keys {
+		ms[i] = strmsg(typeBlobString, k)
+	}
+	return ms
+}
+
+// VerifFlightsResult is the outcome of lru.Flights for one position of the batch.
+type VerifFlightsResult struct {
+	Kind  string // "hit" | "wait" | "miss"
+	Val   RedisMessage
+	Entry CacheEntry
+}
+
+// Flights calls lru.Flights (the batch form used by DoMultiCache); ok is false for other stores.
+func (v *VerifStore) Flights(now time.Time, multi []CacheableTTL) (res []VerifFlightsResult, ok bool) {
+	if v.l == nil {
+		return nil, false
+	}
+	results := make([]RedisResult, len(multi))
+	entries := make(map[int]CacheEntry)
+	missed := v.l.Flights(now, multi, results, entries)
+	res = make([]VerifFlightsResult, len(multi))
+	for i := range res {
+		res[i].Kind = "none"
+	}
+	for _, i := range missed {
+		res[i].Kind = "miss"
+	}
+	for i, e := range entries {
+		if res[i].Kind != "none" {
+			res[i].Kind = "conflict:" + res[i].Kind + "+wait"
+			continue
+		}
+		res[i].Kind = "wait"
+		res[i].Entry = e
+	}
+	for i, r := range results {
+		if r.val.typ != 0 {
+			if res[i].Kind != "none" {
+				res[i].Kind = "conflict:" + res[i].Kind + "+hit"
+				continue
+			}
+			res[i].Kind = "hit"
+			res[i].Val = r.val
+		}
+	}
+	return res, true
+}
+
+// GetTTL calls lru.GetTTL (it reads the wall clock itself); ok is false for other stores.
+func (v *VerifStore) GetTTL(key, cmd string) (ttl time.Duration, ok bool) {
+	if v.l == nil {
+		return 0, false
+	}
+	return v.l.GetTTL(key, cmd), true
+}
+
+// VerifStoreEntry is one entry of a store snapshot.
+type VerifStoreEntry struct {
+	Key, Cmd   string
+	Pending    bool
+	Size       int   // accounted size (lru), 0 for pending entries
+	ExpireAt   int64 // expiry field of the entry's message (client expiry while pending)
+	PayloadLen int
+	Tag        byte
+	InMap      bool // lru: the element is the one registered in store[key].cache[cmd]
+	KeyMatches bool // lru: the entry's keyCache is the one registered under its key
+}
+
+// VerifLRUSnapshot is the complete state of an lru, taken under its lock.
+type VerifLRUSnapshot struct {
+	Entries    []VerifStoreEntry // in list order, front (least recently used) first
+	Size, Max  int
+	Closed     bool
+	Hits       map[string]uint32 // per key
+	MapEntries int               // number of (key, cmd) registrations in the maps
+	EmptyKeys  int               // keys registered with an empty command map
+}
+
+func (v *VerifStore) LRUSnapshot() (s VerifLRUSnapshot, ok bool) {
+	c := v.l
+	if c == nil {
+		return s, false
+	}
+	c.mu.Lock()
+	defer c.mu.Unlock()
+	s.Size, s.Max = c.size, c.max
+	s.Hits = map[string]uint32{}
+	if c.store == nil || c.list == nil {
+		s.Closed = c.store == nil && c.list == nil
+		if !s.Closed { // half closed: cannot happen in lru.go as it is
+			s.MapEntries = -1
+		}
+		return s, true
+	}
+	for key, kc := range c.store {
+		s.Hits[key] = atomic.LoadUint32(&kc.hits)
+		if len(kc.cache) == 0 {
+			s.EmptyKeys++
+		}
+		s.MapEntries += len(kc.cache)
+	}
+	for ele := c.list.Front(); ele != nil; ele = ele.Next() {
+		e := ele.Value.(*cacheEntry)
+		se := VerifStoreEntry{Cmd: e.cmd, Pending: e.val.typ == 0, Size: e.size, ExpireAt: e.val.getExpireAt()}
+		if e.kc != nil {
+			se.Key = e.kc.key
+			if kc := c.store[e.kc.key]; kc != nil {
+				se.KeyMatches = kc == e.kc
+				se.InMap = kc.cache[e.cmd] == ele
+			}
+		}
+		if e.val.typ == typeBlobString {
+			mi := VerifMsgInfo(e.val)
+			se.PayloadLen, se.Tag = mi.PayloadLen, mi.Tag
+		}
+		s.Entries = append(s.Entries, se)
+	}
+	return s, true
+}
+
+// ScaleHits makes the real move threshold of Flight's fast path (every 1024th hit of a key) act as "every
+// every-th hit": each key's hit counter h is replaced by (1024 - every) + h mod every, which keeps h mod every and
+// puts the counter just below the threshold. every must divide 1024. The harness calls it before each operation.
+func (v *VerifStore) ScaleHits(every uint32) {
+	c := v.l
+	if c == nil {
+		return
+	}
+	c.mu.Lock()
+	for _, kc := range c.store {
+		h := atomic.LoadUint32(&kc.hits)
+		atomic.StoreUint32(&kc.hits, (uint32(VerifMoveThreshold)-every)+h%every)
+	}
+	c.mu.Unlock()
+}
+
+// VerifAdapterFlight is one registration in the adapter's flights map.
+type VerifAdapterFlight struct {
+	Key, Cmd string
+	Pending  bool  // false: the nil marker left by Update/Cancel ("a value may be cached under key+cmd")
+	ExpireAt int64 // client expiry of a pending flight
+}
+
+type VerifAdapterSnapshot struct {
+	Flights []VerifAdapterFlight
+	Keys    int
+	Closed  bool
+}
+
+func (v *VerifStore) AdapterSnapshot() (s VerifAdapterSnapshot, ok bool) {
+	a := v.a
+	if a == nil {
+		return s, false
+	}
+	a.mu.Lock()
+	defer a.mu.Unlock()
+	if a.flights == nil {
+		s.Closed = true
+		return s, true
+	}
+	s.Keys = len(a.flights)
+	for key, entries := range a.flights {
+		for cmd, e := range entries {
+			f := VerifAdapterFlight{Key: key, Cmd: cmd}
+			if ae, _ := e.(*adapterEntry); ae != nil {
+				f.Pending = true
+				f.ExpireAt = ae.xat
+			}
+			s.Flights = append(s.Flights, f)
+		}
+	}
+	return s, true
+}
